@@ -1,11 +1,11 @@
 /-
 C10 widened (U2) — torn tails of the legacy files.
 
-Primary: chunkOldPrimary stops at the first record it cannot read completely and says nothing.  With a
-tail shorter than a size prefix nothing of it is copied and the upgrade is the one of the untorn store
-(`upgradeOpen_torn_short`).  With a complete size prefix and a short body, the 4-byte prefix has already
-gone to the writer and is flushed with the last chunk whenever that chunk holds a record (`parse_torn_body`:
-the parse returns it as `stray`); see Sth/Props/C10d.lean for what that leads to.
+Primary: chunkOldPrimary stops at the first record it cannot read completely and says nothing.  The
+repaired code (KNOWN_FINDINGS D31) writes a record's size prefix only after its data has been read, so
+nothing of a torn last record is copied: for EVERY torn tail `t` (`TornP`: fewer than 4 bytes, or a size
+prefix below the deleted bit with less than the announced data) the upgrading open is the one of the store
+without the tail (`upgradeOpen_torn`).
 
 Index: chunkOldIndex answers a torn tail with an error: the upgrading open is refused
 (`upgradeOpen_torn_index`) — after the primary has been converted and the old primary removed.
@@ -128,40 +128,51 @@ theorem parse_tail (t : Bytes) (R : List Bytes) (stray : Bytes)
       rw [hnext, ← hnl, hrec _ (by simp at hf; omega)]
       simp only [outRecs, hm, Bool.false_eq_true, if_false, List.cons_append]
 
-/-- a tail shorter than a size prefix is not seen -/
-theorem parse_torn_short (t : Bytes) (ht : t.length < 4) (l : List MRec) (hs : ∀ r ∈ l, msize r < two31)
+/-- what is left of a record that was not written completely: fewer bytes than a size prefix, or a size
+    prefix (below the deleted bit) followed by less data than it announces -/
+def TornP (t : Bytes) : Prop :=
+  t.length < 4 ∨ ∃ sz body, t = le32 sz ++ body ∧ sz < two31 ∧ body.length < sz
+
+/-- every proper prefix of a well-framed record `[u32 size][key][value]` is such a tail -/
+theorem tornP_of_prefix (k v : Bytes) (hs : k.length + v.length < two31) (j : Nat)
+    (hj : j < 4 + (k.length + v.length)) : TornP ((le32 (k.length + v.length) ++ (k ++ v)).take j) := by
+  have h4 : (le32 (k.length + v.length)).length = 4 := le32_length _
+  by_cases hlt : j < 4
+  · left
+    rw [List.length_take]
+    omega
+  · right
+    refine ⟨k.length + v.length, (k ++ v).take (j - 4), ?_, hs, ?_⟩
+    · rw [List.take_append, h4, List.take_of_length_le (by omega)]
+    · rw [List.length_take, List.length_append]
+      omega
+
+/-- nothing of a torn tail is copied -/
+theorem parse_torn (t : Bytes) (ht : TornP t) (l : List MRec) (hs : ∀ r ∈ l, msize r < two31)
     (fuel : Nat) (s : Bytes) (hf : l.length < fuel) :
     parseOldPrimary (mdata l ++ t) fuel 0 s = (outRecs s l, []) := by
   have := parse_tail t [] [] (by
     intro pre fuel s hf
     obtain ⟨f, rfl⟩ : ∃ f, fuel = f + 1 := ⟨fuel - 1, by omega⟩
-    have : readAt (pre ++ t) pre.length 4 = none := by
-      unfold readAt
-      rw [List.drop_left]
-      have : (t.take 4).length ≠ 4 := by rw [List.length_take]; omega
-      rw [if_neg this]
-    simp only [parseOldPrimary, this]) l hs [] fuel s hf
-  simpa using this
-
-/-- a complete size prefix (below the deleted bit) with a short body: the prefix is the stray write -/
-theorem parse_torn_body (sz : Nat) (body : Bytes) (hsz : sz < two31) (hb : body.length < sz)
-    (l : List MRec) (hs : ∀ r ∈ l, msize r < two31) (fuel : Nat) (s : Bytes) (hf : l.length < fuel) :
-    parseOldPrimary (mdata l ++ (le32 sz ++ body)) fuel 0 s = (outRecs s l, le32 sz) := by
-  have := parse_tail (le32 sz ++ body) [] (le32 sz) (by
-    intro pre fuel s hf
-    obtain ⟨f, rfl⟩ : ∃ f, fuel = f + 1 := ⟨fuel - 1, by omega⟩
-    have h1 : readAt (pre ++ (le32 sz ++ body)) pre.length 4 = some (le32 sz) :=
-      readAt_mid4 _ _ _ (le32_length _)
-    have h2 : readAt (pre ++ (le32 sz ++ body)) (pre.length + 4) sz = none := by
-      unfold readAt
-      have e : pre ++ (le32 sz ++ body) = (pre ++ le32 sz) ++ body := by simp
-      have e1 : (pre ++ le32 sz).length = pre.length + 4 := by simp [le32_length]
-      rw [e, ← e1, List.drop_left]
-      have : (body.take sz).length ≠ sz := by rw [List.length_take]; omega
-      rw [if_neg this]
-    have h3 : leDec (le32 sz) = sz := leDec_le32 _ (by unfold two31 at hsz; unfold two32; omega)
-    have h4 : ¬ sz ≥ two31 := by omega
-    simp only [parseOldPrimary, h1, h3, h4, decide_false, Bool.false_eq_true, if_false, h2]) l hs [] fuel s hf
+    rcases ht with ht | ⟨sz, body, rfl, hsz, hb⟩
+    · have : readAt (pre ++ t) pre.length 4 = none := by
+        unfold readAt
+        rw [List.drop_left]
+        have : (t.take 4).length ≠ 4 := by rw [List.length_take]; omega
+        rw [if_neg this]
+      simp only [parseOldPrimary, this]
+    · have h1 : readAt (pre ++ (le32 sz ++ body)) pre.length 4 = some (le32 sz) :=
+        readAt_mid4 _ _ _ (le32_length _)
+      have h2 : readAt (pre ++ (le32 sz ++ body)) (pre.length + 4) sz = none := by
+        unfold readAt
+        have e : pre ++ (le32 sz ++ body) = (pre ++ le32 sz) ++ body := by simp
+        have e1 : (pre ++ le32 sz).length = pre.length + 4 := by simp [le32_length]
+        rw [e, ← e1, List.drop_left]
+        have : (body.take sz).length ≠ sz := by rw [List.length_take]; omega
+        rw [if_neg this]
+      have h3 : leDec (le32 sz) = sz := leDec_le32 _ (by unfold two31 at hsz; unfold two32; omega)
+      have h4 : ¬ sz ≥ two31 := by omega
+      simp only [parseOldPrimary, h1, h3, h4, decide_false, Bool.false_eq_true, if_false, h2]) l hs [] fuel s hf
   simpa using this
 
 end C10T
@@ -201,11 +212,11 @@ theorem freeOffsets_in (C : LegacyC) (hsz : ∀ kv ∈ C.recs, recSize kv < two3
   show C.offsetOf i + 4 ≤ _
   omega
 
-/-- mhprimary.Open on a legacy primary with a tail shorter than a size prefix: as without the tail -/
-theorem openPrimaryU_torn_short (c : Cfg) (hc : c.Legal) (C : LegacyC)
+/-- mhprimary.Open on a legacy primary with a torn tail: as without the tail -/
+theorem openPrimaryU_torn (c : Cfg) (hc : c.Legal) (C : LegacyC)
     (hsz : ∀ kv ∈ C.recs, recSize kv < two31)
     (hfr : ∀ l, C.freed = some l → ∀ i ∈ l, i < C.recs.length) (hn : C.recs.length < 1073741824)
-    (t : Bytes) (ht : t.length < 4) (idx : Option Bytes) :
+    (t : Bytes) (ht : TornP t) (idx : Option Bytes) :
     openPrimaryU c { data := some (legacyPrimary C.recs ++ t), index := idx,
                      disk := openFreelist { free := C.dir.free } } =
       openPrimaryU c { data := some (legacyPrimary C.recs), index := idx,
@@ -220,7 +231,7 @@ theorem openPrimaryU_torn_short (c : Cfg) (hc : c.Legal) (C : LegacyC)
   have hgc : toGCU ({ free := some C.flBytes } : Disk) = { free := some [], freeGc := some C.flBytes } := rfl
   obtain ⟨hm, _⟩ := markFreed_append t _ _ _ (freeOffsets_in C hsz hfr hn) (C.markFreed_legacy hsz hfr hn)
   simp only [hgc, Option.getD_some, hm]
-  have hparse := parse_torn_short t ht C.marked (C.msize_marked hsz) ((mdata C.marked ++ t).length + 1) scratch0
+  have hparse := parse_torn t ht C.marked (C.msize_marked hsz) ((mdata C.marked ++ t).length + 1) scratch0
     (by have := length_le_mdata C.marked; simp only [List.length_append]; omega)
   rw [hparse]
   simp only
@@ -242,12 +253,12 @@ theorem openPrimaryU_torn_short (c : Cfg) (hc : c.Legal) (C : LegacyC)
   · simp only [he, Bool.false_eq_true, if_false]
     rfl
 
-/-- the upgrading open of a store whose legacy primary ends in fewer than 4 stray bytes is the upgrading
-    open of the store without them -/
-theorem upgradeOpen_torn_short (c : Cfg) (hc : c.Legal) (C : LegacyC)
+/-- the upgrading open of a store whose legacy primary ends in a torn record is the upgrading open of the
+    store without it -/
+theorem upgradeOpen_torn (c : Cfg) (hc : c.Legal) (C : LegacyC)
     (hsz : ∀ kv ∈ C.recs, recSize kv < two31)
     (hfr : ∀ l, C.freed = some l → ∀ i ∈ l, i < C.recs.length) (hn : C.recs.length < 1073741824)
-    (t : Bytes) (ht : t.length < 4) (order : List Nat) :
+    (t : Bytes) (ht : TornP t) (order : List Nat) :
     upgradeOpen c { C.dir with data := C.dir.data ++ t } order = upgradeOpen c C.dir order := by
   unfold upgradeOpen openU
   by_cases hk : c.kind ≠ .mh
@@ -262,7 +273,7 @@ theorem upgradeOpen_torn_short (c : Cfg) (hc : c.Legal) (C : LegacyC)
           disk := openFreelist { free := C.dir.free } } := rfl
     rw [e0, e1]
     dsimp only
-    rw [openPrimaryU_torn_short c hc C hsz hfr hn t ht]
+    rw [openPrimaryU_torn c hc C hsz hfr hn t ht]
 
 end C10T
 
@@ -498,57 +509,6 @@ theorem repaired (hc : c.Legal) (hk : c.kind = .mh) (hwf : LegacyWFU c U C)
     rw [e1, hup, e2, hup2]
   erw [hsame, hi1]
   simp only [List.isEmpty_nil, if_true]
-  rfl
-
-end C10T
-
-end Sth
-
-namespace Sth
-
-namespace C10T
-
-open LegacyC
-
-/-- mhprimary.Open on a legacy primary whose last record has its size prefix but not all of its data: the
-    numbered files are those of the whole records, with the torn record's 4-byte size prefix appended to
-    the last one if that one holds a record (`chunkFiles … stray`) -/
-theorem openPrimaryU_torn_body (c : Cfg) (hc : c.Legal) (C : LegacyC)
-    (hsz : ∀ kv ∈ C.recs, recSize kv < two31)
-    (hfr : ∀ l, C.freed = some l → ∀ i ∈ l, i < C.recs.length) (hn : C.recs.length < 1073741824)
-    (sz : Nat) (body : Bytes) (hs : sz < two31) (hb : body.length < sz) (idx : Option Bytes) :
-    openPrimaryU c { data := some (legacyPrimary C.recs ++ (le32 sz ++ body)), index := idx,
-                     disk := openFreelist { free := C.dir.free } } =
-      some ({ data := none, index := idx,
-              disk := { free := some [], freeGc := none,
-                        pfiles := setFiles [] 0 (chunkFiles c.pfs C.out (le32 sz)),
-                        phdr := some ⟨c.pfs, 0⟩ } },
-            c.pfs, (chunkFiles c.pfs C.out (le32 sz)).length - 1,
-            (fileOf (setFiles [] 0 (chunkFiles c.pfs C.out (le32 sz)))
-              ((chunkFiles c.pfs C.out (le32 sz)).length - 1)).length) := by
-  obtain ⟨h1, h2, h3, h4, h5, h6⟩ := hc
-  have hp0 : c.pfs ≠ 0 := by omega
-  have hp1 : ¬ c.pfs > defaultMax := by omega
-  rw [openFreelist_legacy]
-  unfold openPrimaryU
-  simp only [hp0, if_false, hp1]
-  have hgc : toGCU ({ free := some C.flBytes } : Disk) = { free := some [], freeGc := some C.flBytes } := rfl
-  obtain ⟨hm, _⟩ := markFreed_append (le32 sz ++ body) _ _ _ (freeOffsets_in C hsz hfr hn)
-    (C.markFreed_legacy hsz hfr hn)
-  simp only [hgc, Option.getD_some, hm]
-  have hparse := parse_torn_body sz body hs hb C.marked (C.msize_marked hsz)
-    ((mdata C.marked ++ (le32 sz ++ body)).length + 1) scratch0
-    (by have := length_le_mdata C.marked; simp only [List.length_append]; omega)
-  rw [hparse]
-  have he : (mdata C.marked ++ (le32 sz ++ body)).isEmpty = false := by
-    have : (le32 sz).length = 4 := le32_length _
-    cases h0 : mdata C.marked ++ (le32 sz ++ body) with
-    | nil =>
-      have := congrArg List.length h0
-      simp only [List.length_append, List.length_nil] at this
-      omega
-    | cons _ _ => rfl
-  simp only [he, Bool.false_eq_true, if_false]
   rfl
 
 end C10T
